@@ -3,7 +3,7 @@ import json, os, random, collections, re
 import vlib, adef, l2
 from checks import gen_common, addr_common as ac
 
-RULE = ("corpus/C13 first (the witnesses of the repaired defects D3, D3c, D4, D4b, D4c with the outcome recorded for each, and of D3b); "
+RULE = ("corpus/C13 first (the witnesses of the repaired defects D3, D3b, D3c, D4, D4b, D4c with the outcome and internal type recorded for each); "
         "then object trees generated NEAR THE BOUNDS of each of the seven address types: one probe path (0..3 nested blocks with "
         "offsets, optional block repeats, a leaf with optional repeat and signed stride) whose extreme address lands at "
         "type.min/max + {-2..2}, plus fillers, register/command refs with/without address and repeat override, block refs, "
@@ -11,10 +11,11 @@ RULE = ("corpus/C13 first (the witnesses of the repaired defects D3, D3c, D4, D4
         "end is parsed and the Coq model (addr_check: the repaired min/max walk in i128) and the exact Z SPEC (instances/reach/fits) "
         "evaluated on it by vm_compute. L1 compares (i) implementation vs spec: unfit/missing => rejected, accepted => every instance "
         "fits (an accepted unfit definition is a violation whatever construct it goes through), no generator panic; (ii) "
-        "implementation vs model: status, error kind, the stated extreme, type and bound. L2 compiles accepted definitions without "
+        "implementation vs model: status, error kind, the stated extreme, type and bound; (iii) for every accepted definition the "
+        "type the emitted block structs declare for base_address vs the model's internal type. L2 compiles accepted definitions without "
         "block refs (debug: overflow checks on; release: wrapping) and calls every accessor at every extreme index tuple against a "
         "recording mock; recorded bus addresses are compared with the model's gen_addr (debug/release) and with the spec's addr_sem; "
-        "a difference from addr_sem is the known finding D3b only where the model puts the path in the class of D3b. "
+        "any difference from addr_sem (an overflow or wrap on the way to a fitting address) is a violation. "
         "distinct = distinct abstract definitions")
 
 TAG_IDS = ["D3", "D4", "D4b", "D4c"]   # tags of the spec: through which construct an instance is reached (repaired classes)
@@ -265,11 +266,14 @@ def repaired_class_shape(d):
 
 
 def d3b_shape(d, it):
-    """signed internal type and some repeat whose (count-1)*|stride| exceeds its maximum (the class of D3b; only used to
-    pick definitions for L2, the classification is the model's)"""
-    if not it.startswith("i"):
+    """the shape of the repaired defect D3b: a signed address type and some repeat whose (count-1)*|stride| exceeds its
+    maximum, so that an internal type sized for the final addresses only would overflow on the way (only used to pick
+    definitions for L2)"""
+    his = [adef.INT_RANGE[t][1] for t in (d["config"].get(k + "_address_type") for k in ("register", "command", "buffer"))
+           if t and t.startswith("i")]
+    if not his:
         return False
-    it_hi = (1 << (int(it[1:]) - 1)) - 1
+    it_hi = min(his)
     for o, _, _ in ac.all_objects(d["objects"]):
         tgt = o["override"] if o["kind"] == "ref" else o
         rep = tgt.get("repeat")
@@ -401,7 +405,11 @@ def l2_phase(ctx, exe, rng, accepted, open_ids, nmax):
         l2.write_crate(ctx, "c13l2", mods, main_rs)
         ok, out = l2.build(ctx, "c13l2", release=release)
         if not ok:
-            viols.append({"what": f"L2: the batch of accepted definitions does not compile ({mode})", "log": out[-3000:]})
+            hint = ""
+            if "Neg` is not satisfied" in out or "literal out of range" in out or "this arithmetic operation will overflow" in out:
+                hint = (" — a literal or constant product outside the generator's internal type: the internal type is narrower than "
+                        "the model's, which covers every address, |stride|, count-1 and (count-1)*|stride| (defect D3b / D22 is back?)")
+            viols.append({"what": f"L2: the batch of accepted definitions does not compile ({mode})" + hint, "log": out[-3000:]})
             break
         rc, stdout, stderr = l2.run_bin(ctx, "c13l2", release=release)
         got = {}
@@ -424,9 +432,13 @@ def l2_phase(ctx, exe, rng, accepted, open_ids, nmax):
                     first = g.split(",")[0].split(" ")
                     obs = first[1] if len(first) > 1 else "none"
                 stats[f"{mode}_calls"] += 1
+                back = ""
+                if want_model == sem and obs != sem:
+                    back = " — an overflow / wrap on the way to an address that fits (defect D3b is back?)"
                 if obs != want_model:
-                    viols.append({"what": f"L2 ({mode}): compiled accessor disagrees with the model's gen_addr",
-                                  "definition": adef.render(d2, "dsl"), "adef": d2, "call": ln, "observed": obs, "model": want_model})
+                    viols.append({"what": f"L2 ({mode}): compiled accessor disagrees with the model's gen_addr" + back,
+                                  "definition": adef.render(d2, "dsl"), "adef": d2, "call": ln, "observed": obs, "model": want_model,
+                                  "addr_sem": sem})
                     continue
                 if obs == sem:
                     stats[f"{mode}_exact"] += 1
@@ -434,19 +446,14 @@ def l2_phase(ctx, exe, rng, accepted, open_ids, nmax):
                         samples.append({"mode": mode, "definition": adef.render(d2, "dsl"), "call": path + " @ " + idxs,
                                         "bus_address": obs, "addr_sem": sem})
                     continue
-                # the compiled code panics / puts a wrong address on the bus although the definition was accepted (and
-                # agrees with the model's gen_addr).  By C13_accepted_no_overflow this is possible only in the class
-                # of D3b (signed internal type, some step's (count-1)*|stride| beyond its maximum): the model marks it.
-                ids = set(t for t in tags.split("+") if t)
+                # the compiled code panics / puts a wrong address on the bus although the definition was accepted, and the
+                # model's gen_addr agrees with it: impossible by C13_accepted_no_overflow_full (D3b is repaired: the internal
+                # type covers every step's index and index * |stride|)
                 it = res[cid]["coq_extra"][0].split(" ## ")[2] if res[cid].get("coq_extra") else "?"
-                if ids == {"D3b"} and "D3b" in open_ids:
-                    known["D3b"].append(f"{mode}: {path} @ [{idxs}] addr_sem {sem}, compiled code: {obs}; " +
-                                        adef.render(d2, "dsl").replace("\n", " ")[:400])
-                    stats[f"{mode}_known"] += 1
-                else:
-                    viols.append({"what": f"L2 ({mode}): accepted definition outside the class of D3b computes a wrong address / overflows",
-                                  "definition": adef.render(d2, "dsl"), "adef": d2, "call": ln, "observed": obs, "addr_sem": sem,
-                                  "internal_type": it})
+                viols.append({"what": f"L2 ({mode}): accepted definition computes a wrong address / overflows on the way, and so does the "
+                                      f"model, against C13_accepted_no_overflow_full (model class marker: {tags!r})",
+                              "definition": adef.render(d2, "dsl"), "adef": d2, "call": ln, "observed": obs, "addr_sem": sem,
+                              "internal_type": it})
     l2.cleanup(ctx, "c13l2")
     stats["l2_definitions"] = len(mods)
     return stats, viols, known, samples
@@ -462,7 +469,7 @@ def run(ctx):
     rng = random.Random(ctx.seed)
     n = 1500 if ctx.tier == "quick" else 20000
     stats = collections.Counter()
-    items, defs, expect = [], {}, {}
+    items, defs, expect, expect_it = [], {}, {}, {}
     cdir = os.path.join(vlib.VERIF, "corpus", "C13")
     if os.path.isdir(cdir):
         for f in sorted(os.listdir(cdir)):
@@ -472,6 +479,8 @@ def run(ctx):
                 defs[cid] = (d["adef"], d.get("syntax", "dsl"))
                 if d.get("expect"):
                     expect[cid] = d["expect"]
+                if d.get("expect_internal"):
+                    expect_it[cid] = d["expect_internal"]
                 items.append((cid, d["adef"], d.get("syntax", "dsl"), adef.render(d["adef"], d.get("syntax", "dsl"))))
     ncorpus = len(items)
     for i in range(n):
@@ -479,10 +488,10 @@ def run(ctx):
         sx = rng.choice(["dsl", "dsl", "dsl", "json", "yaml", "toml"])
         cid = f"c{i}"
         defs[cid] = (d, sx)
-        items.append((cid, d, sx, adef.render(d, sx, rng)))
+        items.append((cid, d, sx, adef.render(ac.respell_refs(d, rng), sx, rng)))
         stats["syntax_" + sx] += 1
     fn = fn_name()
-    res = ac.run_batch(ctx, exe, items, fn, tag="c13")
+    res = ac.run_batch(ctx, exe, items, fn, tag="c13", want=("mir", "internal"))
     open_ids = [f["id"] for f in vlib.load_known_findings("C13")]
     verdicts = collections.Counter()
     outcome_hist = collections.Counter()
@@ -497,6 +506,17 @@ def run(ctx):
         if v != "violation" and cid in expect and impl != expect[cid]:
             # corpus: the witnesses of the repaired defects (and of D3b) with the outcome recorded for them
             v, detail = "violation", f"corpus witness {cid}: generator says {impl!r}, recorded outcome {expect[cid]!r}"
+        if v != "violation" and cid in expect_it and e["coq"].split(" ## ")[2] != expect_it[cid]:
+            v, detail = "violation", f"corpus witness {cid}: model internal type {e['coq'].split(' ## ')[2]}, recorded {expect_it[cid]}"
+        if v != "violation" and impl == "ok":
+            # the type every emitted block struct declares for `base_address` is the model's internal type (the one
+            # C13_accepted_no_overflow_full and C13_internal_type_covers_method_literals speak about)
+            real_it = e["res"].get("internal")
+            model_it = e["coq"].split(" ## ")[2]
+            stats["internal_type_compared"] += 1
+            if real_it != [model_it]:
+                v, detail = "violation", (f"internal address type: the emitted block structs use {real_it}, the model's "
+                                          f"find_best_internal_address gives {model_it}")
         verdicts[v] += 1
         outcome_hist[impl.split(":")[1] if impl.startswith("error:") else impl] += 1
         distinct.add(json.dumps(d, sort_keys=True))
@@ -512,12 +532,22 @@ def run(ctx):
     if not bad:
         # definitions with the constructs of the repaired classes first (repeated blocks, refs falling back to their
         # target's address / repeat), then a spread of the others
-        pri = [a for a in accepted if a[0].startswith("k")]
-        pri += [a for a in accepted if a not in pri and d3b_shape(a[1], a[2].split(" ## ")[2])][:10 if ctx.tier == "quick" else 60]
-        pri += [a for a in accepted if a not in pri and repaired_class_shape(a[1])][:20 if ctx.tier == "quick" else 120]
-        rest = [a for a in accepted if a not in pri]
-        rng.shuffle(rest)
-        l2stats, l2viols, l2known, l2samples = l2_phase(ctx, exe, rng, pri + rest, open_ids, 60 if ctx.tier == "quick" else 400)
+        # the accepted corpus witnesses in a crate of their own first: they compile with the narrower internal type of the
+        # generator before the repair of D3b too, so that a regression shows as the overflow it is, not as a compile error
+        corp = [a for a in accepted if a[0].startswith("k")]
+        if corp:
+            l2stats, l2viols, l2known, l2samples = l2_phase(ctx, exe, rng, corp, open_ids, len(corp))
+        if not l2viols:
+            pri = [a for a in accepted if a not in corp and d3b_shape(a[1], a[2].split(" ## ")[2])][:10 if ctx.tier == "quick" else 60]
+            pri += [a for a in accepted if a not in corp and a not in pri and repaired_class_shape(a[1])][:20 if ctx.tier == "quick" else 120]
+            rest = [a for a in accepted if a not in pri and a not in corp]
+            rng.shuffle(rest)
+            st2, v2, k2, sm2 = l2_phase(ctx, exe, rng, pri + rest, open_ids, 60 if ctx.tier == "quick" else 400)
+            l2stats = l2stats + st2
+            l2viols = l2viols + v2
+            l2samples = l2samples + sm2
+            for k, lst in k2.items():
+                l2known.setdefault(k, []).extend(lst)
     findings = {f["id"]: f for f in vlib.load_known_findings("C13")}
     all_known = collections.defaultdict(list)
     for ids, lst in known.items():
